@@ -16,6 +16,8 @@ R05.d  memoised queries are pure: their call closure writes nothing shared
 R05.e  the unscheduled-operations observer mirrors the dispatch: ``update``
        pops exactly the head of the dispatched operation's job deque;
        ``reset`` rebuilds every deque from the instance.
+R05.f  no for-loop variable of these modules is read after its loop (a statement
+       left one indentation level too shallow sees only the last element).
 """
 
 from __future__ import annotations
@@ -48,6 +50,7 @@ MANIFEST = {
         "unscheduled-operations observer pops exactly the dispatched job's "
         "head. Not decided: that each query's value equals an independent "
         "recomputation (partitions, current time) - value-level."
+        " Also decided: no for-loop variable of these modules is read after its loop (statement left one indentation level too shallow)."
     ),
     "note": (
         "Alias model: flow-insensitive local definitions, attribute chains, "
@@ -80,6 +83,9 @@ CACHE = ["_cache"]  # the dispatcher's memo dict, found by role in run()
 
 def run(ctx):
     chk, repo = ctx.chk, ctx.repo
+    from .common import check_loop_variable_leaks
+
+    check_loop_variable_leaks(ctx, "R05.f", ("job_shop_lib.dispatching._dispatcher", "job_shop_lib.dispatching._unscheduled_operations_observer"), "the dispatcher")
     CACHE[0] = dispatcher_roles(ctx)["cache"]
     chk.rule("R05.a", "state write -> cache clear before any notify/return, on every path of every Dispatcher method")
     chk.rule("R05.b", "no mutation of an object aliased to a memoised query result (package wide, through parameters)")
